@@ -182,11 +182,15 @@ PROGRAMS = [
     (["enter", "mF", "mP", "exit"], ["as_dict", "mF"], ["bump"]),
     (["as_dict", "mP"], ["as_dict"], ["bump", "bump"]),
     (["enter", "mF", "repr", "mF", "mP", "exit"], ["mF"], ["bump"]),
+    # a plain call in flight while the source moves and another thread enters a block
+    (["mF"], ["bump", "enter", "mF", "mP", "exit"], []),
+    (["mP", "mF"], ["bump", "enter", "mP", "mF", "exit", "bump", "enter", "mF", "exit"], ["mF"]),
 ]
 
 
 def thread_chunk(job):
-    seed, prog_i, bound, limit = job
+    seed, prog_i, bound, limit = job[:4]
+    traced = job[4] if len(job) > 4 else TRACED
     w, ps = template()
     rnd = random.Random(seed)
     src = ("stat", "status", "smaps", "statm")[seed % 4]
@@ -243,7 +247,7 @@ def thread_chunk(job):
                 tr.setdefault("escaped", []).append(repr(t.exc))
         traces.append(tr)
 
-    sched.explore(make_bodies, TRACED, bound=bound, limit=limit, rnd=rnd, on_run=on_run)
+    sched.explore(make_bodies, traced, bound=bound, limit=limit, rnd=rnd, on_run=on_run)
     w.observer = None
     return traces
 
@@ -399,6 +403,11 @@ def check(ctx):
     for pi in range(len(PROGRAMS)):
         for k in range(4):
             jobs.append((ctx.seed * 101 + pi * 4 + k, pi, 3 if thorough else 2, per))
+    # the same programs with yield points in the memo wrapper only (psutil/_common.py): few enough steps
+    # for EVERY schedule with two pre-emptions, one execution per source kind
+    for pi in range(len(PROGRAMS)):
+        for k in range(4):
+            jobs.append((ctx.seed * 101 + pi * 4 + k, pi, 2, 4000 if thorough else 500, ("psutil/_common.py",)))
     res = forkpool.map_fork(thread_chunk, jobs, timeout=1500)
     traces = []
     for st, val in res:
